@@ -55,8 +55,8 @@ pub fn gargtype(t: &ArgumentType) -> String {
         ArgumentType::Function => "AFunction".into(),
         ArgumentType::Nil => "ANil".into(),
         ArgumentType::Number => "ANumber".into(),
-        ArgumentType::String => "AString".into(),
-        ArgumentType::Table => "ATable".into(),
+        ArgumentType::String => "Lib.AString".into(),
+        ArgumentType::Table => "Lib.ATable".into(),
         ArgumentType::Vararg => "AVararg".into(),
     }
 }
